@@ -4,6 +4,7 @@
 //   replay_cleartext control       -> well-behaved header + features offering STARTTLS: only <starttls/> may be sent
 //   replay_cleartext features-starttls   -> features offer STARTTLS and every authentication / bind / sm feature: only <starttls/> may be sent
 //   replay_cleartext features-nostarttls -> features offer everything except STARTTLS: nothing may be sent, the client must give up
+//   replay_cleartext keepalive-stall     -> STARTTLS offered, then the server never answers <starttls/>; keepAliveInterval = 1 s: no ping may be written
 //   replay_cleartext starttls-failure    -> <failure/> instead of <proceed/>: the client must give up (close the stream / disconnect)
 // Prints every chunk the server received, then one of REPRODUCED / NOT-REPRODUCED (exit 0 / 1).
 #include <QCoreApplication>
@@ -98,10 +99,14 @@ int main(int argc, char **argv)
     cfg.setPassword(QString::fromLatin1(PASSWORD));
     cfg.setResource(QStringLiteral("r"));
     cfg.setAutoReconnectionEnabled(false);
+    if (mode == "keepalive-stall") {
+        cfg.setKeepAliveInterval(1);   // seconds; the unencrypted phase is kept open for 3.5 s by the stalling server
+        cfg.setKeepAliveTimeout(0);
+    }
     cfg.setStreamSecurityMode(QXmppConfiguration::TLSRequired);   // everything else: library defaults
     client.connectToServer(cfg);
 
-    QTimer::singleShot(2500, &app, &QCoreApplication::quit);
+    QTimer::singleShot(mode == "keepalive-stall" ? 3500 : 2500, &app, &QCoreApplication::quit);
     app.exec();
 
     const bool encrypted = false;   // the scripted server never starts TLS: the link stays plain TCP for its whole life
@@ -118,6 +123,9 @@ int main(int argc, char **argv)
     } else if (mode == "features-nostarttls") {
         violated = received.contains("<auth") || received.contains("<iq") || received.contains("<response") || received.contains(PASSWORD) || received.contains("<enable") || received.contains("<resume") || !clientClosed;
         std::printf("negotiation continued without TLS: %s; client gave up: %s\n", (violated && clientClosed) ? "YES" : "no", clientClosed ? "yes" : "NO");
+    } else if (mode == "keepalive-stall") {
+        violated = received.contains("<iq") || received.contains("urn:xmpp:ping") || received.contains("<r ");
+        std::printf("keep-alive ping written to the unencrypted connection: %s\n", violated ? "YES" : "no");
     } else if (mode == "starttls-failure") {
         const QByteArray rest = afterFailure >= 0 ? received.mid(afterFailure) : QByteArray();
         violated = afterFailure < 0 || !clientClosed || rest.contains("<auth") || rest.contains("<iq");
